@@ -166,6 +166,7 @@ def step0 (d : St) (line : String) : St × String :=
     let s' := { d.s with m := m', held := d.s.held.modify ci (fun l => l.drop (Drv.nat! k)) }
     ({ d with s := s' }, s!"ok {back.length}" ++ gsuffix s')
   | ["pool", c] => ({ d with pool := { cap := Drv.nat! c }, muxOff := true }, "ok")
+  | ["pool", c, _age] => ({ d with pool := { cap := Drv.nat! c }, muxOff := true }, "ok")   -- ring counters are unbounded here
   | ["pget"] =>
     let (s', p', id) := poolGet (d.pool.ring.length + 1) d.s d.pool
     ({ d with s := s', pool := p', heldP := d.heldP ++ [id] }, s!"ok {id} pooled={p'.ring.length}" ++ gsuffix s')
